@@ -117,9 +117,9 @@ func TestPropExec(t *testing.T) {
 	rapid.Check(t, func(t *rapid.T) {
 		f := wgen.DefaultFeatures()
 		f.ConstOK = wref.ConstOK
-		f.Off = ev.Excluded
+		f.Off = func(tag string) bool { return ev.Excluded(tag) || ev.Excluded("spv."+tag) }
 		gc := wgen.GenExec(t, f)
-		c, res, discard, err := xrun.Build(gc, nil)
+		c, res, discard, err := xrun.Build(gc, nil, knownDiscards)
 		if err != nil {
 			ev.Inconclusive("reference evaluator failed on a generated program: " + err.Error())
 			t.Fatalf("harness: %v\n%s", err, gc.Src)
@@ -164,4 +164,22 @@ func TestPropExec(t *testing.T) {
 			t.Fatalf("%s\n%s", v.msg, c.WGSL)
 		}
 	})
+}
+
+// knownDiscards keeps generated search away from executions that hit the root
+// cause of an open known finding (counted as discards).
+func knownDiscards(e *wref.Events) string {
+	if (e.F2IRange > 0 || e.F2INaN > 0) && ev.Excluded("spv.f2i.out-of-range") {
+		return "known:f2i-out-of-range"
+	}
+	if e.ClampInv > 0 && ev.Excluded("spv.clamp.inverted") {
+		return "known:int-clamp-inverted"
+	}
+	if e.ShiftWide > 0 && ev.Excluded("spv.shift.wide") {
+		return "known:shift-amount>=32"
+	}
+	if e.BitsClamp > 0 && ev.Excluded("spv.bits.out-of-range") {
+		return "known:bits-out-of-range"
+	}
+	return ""
 }
